@@ -325,7 +325,84 @@ def _all_tableaux_sample(n, rng, count):
     return out
 
 
-STANDINS = [standin_clifford_circuits, standin_single_qubit_group, standin_rowsum, standin_tableau_measure]
+def standin_sampling_statistics(tier, seed):
+    """repeated sampling of a stabilizer state (sample / step.sample / sample_measurement_ops with every kind of seed): the empirical
+    distribution over N repetitions stays within 6 standard deviations of the Born probabilities — in particular repetitions are not
+    copies of each other and independent qubits are not correlated.  (A correct sampler fails this with probability < 1e-7 per bin.)"""
+    import cirq
+
+    cases, fails = 0, []
+    N = 400
+    q = cirq.LineQubit.range(3)
+    scenarios = {
+        "|+>|+>": (cirq.Circuit(cirq.H(q[0]), cirq.H(q[1])), q[:2], {(a, b): 0.25 for a in (0, 1) for b in (0, 1)}),
+        "Bell": (cirq.Circuit(cirq.H(q[0]), cirq.CNOT(q[0], q[1])), q[:2], {(0, 0): 0.5, (1, 1): 0.5}),
+        "|+>|1>|+>": (cirq.Circuit(cirq.H(q[0]), cirq.X(q[1]), cirq.H(q[2])), q[:3], {(a, 1, b): 0.25 for a in (0, 1) for b in (0, 1)}),
+        "GHZ, S on one": (cirq.Circuit(cirq.H(q[0]), cirq.CNOT(q[0], q[1]), cirq.CNOT(q[1], q[2]), cirq.S(q[2])), q[:3], {(0, 0, 0): 0.5, (1, 1, 1): 0.5}),
+    }
+
+    def judge(label, how, counts, probs):
+        nonlocal cases
+        cases += 1
+        total = sum(counts.values())
+        for k in set(counts) | set(probs):
+            p = probs.get(k, 0.0)
+            sd = (total * p * (1 - p)) ** 0.5
+            if abs(counts.get(k, 0) - total * p) > 6 * sd + 1e-9:
+                fails.append(dict(args=dict(state=label, entry_point=how, repetitions=total, counts={str(k_): v for k_, v in counts.items()}), failed="sampling-statistics",
+                                  clause=f"{how} on {label}: outcome {k} seen {counts.get(k, 0)} times in {total}, Born probability {p} (more than 6 sigma off)"))
+                return
+
+    def tally(arr):
+        c = {}
+        for row in np.asarray(arr).astype(int).tolist():
+            c[tuple(row)] = c.get(tuple(row), 0) + 1
+        return c
+
+    seeds = [0, 7, 1234, None, np.random.RandomState(5)]
+    for label, (circ, qs, probs) in scenarios.items():
+        n = len(qs)
+        for sd in seeds if tier != "quick" else seeds[:1] + seeds[3:]:
+            sname = "RandomState" if isinstance(sd, np.random.RandomState) else repr(sd)
+            # the state representations themselves
+            t = cirq.CliffordTableau(n)
+            st = cirq.CliffordTableauSimulationState(t, qubits=qs, prng=np.random.RandomState(0))
+            ch = cirq.StabilizerChFormSimulationState(qubits=qs, prng=np.random.RandomState(0), initial_state=0)
+            for op in circ.all_operations():
+                cirq.act_on(op, st)
+                cirq.act_on(op, ch)
+            for how, fn in ((f"CliffordTableau.sample(seed={sname})", lambda: st.tableau.sample(list(range(n)), repetitions=N, seed=sd)),
+                            (f"StabilizerStateChForm.sample(seed={sname})", lambda: ch.state.sample(list(range(n)), repetitions=N, seed=sd)),
+                            (f"CliffordTableauSimulationState.sample(seed={sname})", lambda: st.sample(qs, repetitions=N, seed=sd)),
+                            (f"StabilizerChFormSimulationState.sample(seed={sname})", lambda: ch.sample(qs, repetitions=N, seed=sd))):
+                try:
+                    judge(label, how, tally(fn()), probs)
+                except (AttributeError, NotImplementedError, TypeError):
+                    continue
+            # simulator step results, joint and split
+            for split in (False, True):
+                for simname, sim in (("CliffordSimulator", cirq.CliffordSimulator(split_untangled_states=split)), ("Simulator", cirq.Simulator(split_untangled_states=split)),
+                                     ("DensityMatrixSimulator", cirq.DensityMatrixSimulator(split_untangled_states=split))):
+                    step = list(sim.simulate_moment_steps(circ, qubit_order=qs))[-1]
+                    try:
+                        judge(label, f"{simname}(split_untangled_states={split}) step.sample(seed={sname})", tally(step.sample(list(qs), repetitions=N, seed=sd)), probs)
+                    except (NotImplementedError, TypeError):
+                        continue
+        if len(fails) >= 4:
+            break
+    seen, uniq = set(), []
+    for f in fails:
+        k = f["args"]["entry_point"].split("(seed")[0]
+        if k not in seen:
+            seen.add(k)
+            uniq.append(f)
+    return dict(function="cirq-core/cirq/qis/quantum_state_representation.py:QuantumStateRepresentation.sample + sim step.sample", case="sampling-statistics",
+                bound=f"4 stabilizer states x integer / None / RandomState seeds x tableau, CH form, their simulation states and 3 simulators' step results (joint and split); {N} repetitions, 6-sigma bounds",
+                cases=cases, distinct=cases, failures=len(fails), exhaustive=False, _fails=uniq[:4])
+standin_sampling_statistics.prop = "C13"
+
+
+STANDINS = [standin_clifford_circuits, standin_single_qubit_group, standin_rowsum, standin_tableau_measure, standin_sampling_statistics]
 
 
 def _replay_tableau(ob, seed):
